@@ -1,4 +1,4 @@
-import GMProofs.Lemmas.RestrL
+import GMProofs.Lemmas.RestrGuessL
 /-
   C10 — Restraint pairs always designate the atoms the user (or the guesser) meant.
 
@@ -8,6 +8,12 @@ import GMProofs.Lemmas.RestrL
   Everything is integers / strings / lists: the theorems are exact, for every size and every position
   type `P`.  Specification-side vocabulary (`fixedOf`, `mobileOf`, `orient`, `keepPair`, `rank`,
   `keptPositions`, `Atom.isH`, `preLen`, `…Ok`, `argsFor`) is defined in `GMProofs.Lemmas.RestrL`.
+
+  `Manager.parse_restrictions(…, guess_proteins)` (`parseRestrictionsG`, composed with
+  `align_molecules(parse_restrictions=False)` as `managerAlignGuess`), the `Alignment.start/end` setters
+  (`setStart`, `setEnd`, histories `runOps`), the unset check (`alignMolecules`) and
+  `Manager.add_end_molecule` are in the last two sections; their vocabulary (`GuessAccepts`,
+  `restrForG`, `SpeciesOkG`, `RestrDictOkG`, `KeysKnown`, `Locked`) is in `GMProofs.Lemmas.RestrGuessL`.
 
   Only property theorems and their non-vacuity examples live here.
 -/
@@ -433,6 +439,296 @@ theorem routing_accepts_rest (sys : List (Species P)) (r : Option (Dict RestrArg
         | bool b => trivial
         | other => exact absurd (.nonBool dh s rfl hs hl) hm
 
+/-! ### sentence 3, continued — `Manager.parse_restrictions(restrictions, guess_proteins)` -/
+
+/-- `len(start.resnames) > 3` is about the number of residues -/
+theorem big_iff (sp : Species P) : sp.big = true ↔ sp.start.residues.length > 3 := by
+  simp [Species.big, Mol.resnames]
+
+/-- For every system, option dictionaries and flag value that the parser accepts (`RestrDictOkG`:
+    keys are complete species, the value of every species the flag does NOT apply to is well formed,
+    the guesser accepts every species the flag applies to): `parse_restrictions(r, guess_proteins=g)`
+    returns one entry per complete species, in order, holding `restrForG r g s`; and passing that
+    dictionary to `align_molecules(…, parse_restrictions=False)` aligns every complete species once,
+    in order, with exactly that restraint value and with the deformation types / hydrogen flag
+    stored under its own name. -/
+theorem routing_guess_exact (sys : List (Species P)) (hnd : (sys.map (·.name)).Nodup)
+    (r : Option (Dict RestrArg)) (d : Option (Dict DefArg)) (h : Option (Dict IgnArg)) (g : Bool)
+    (hr : RestrDictOkG sys r g) (hd : DefDictOk sys d) (hh : IgnDictOk sys h) :
+    parseRestrictionsG sys r g = .ok ((complete sys).map fun s => (s.1.name, restrForG r g s)) ∧
+    managerAlignGuess sys r d h g = runAligns ((complete sys).map fun s =>
+      { name := s.1.name, start := s.1.start, end_ := s.2, restr := restrForG r g s,
+        deform := deformFor d s.1.name, ignoreH := ignoreFor h s.1.name }) :=
+  ⟨parseRestrictionsG_ok sys r g hr, managerAlignGuess_ok sys hnd r d h g hr hd hh⟩
+
+/-- what `restrForG` is: without the flag, or for a species of at most 3 residues, the value the
+    user stored under the species' name (as `routing_values` describes it); with the flag and more
+    than 3 residues the guesser's list — WHATEVER the user stored, present or not, well formed or
+    not — which is the list `protein_pairs_same_position` / `protein_pairs_cover` speak about. -/
+theorem routing_guess_values (r : Option (Dict RestrArg)) (g : Bool) (s : Species P × Mol P) :
+    (g = false → restrForG r g s = restrFor r s.1.name) ∧
+    (s.1.start.residues.length ≤ 3 → restrForG r g s = restrFor r s.1.name) ∧
+    (g = true → s.1.start.residues.length > 3 → GuessAccepts s.1.start s.2 →
+      ∃ rs, guessProtein s.1.start s.2 = .ok rs ∧ restrForG r g s = some rs ∧
+        ∀ r', restrForG r' g s = some rs) := by
+  refine ⟨?_, ?_, ?_⟩
+  · intro hg; simp [restrForG, guessedHere, hg]
+  · intro hs
+    have : s.1.big = false := by
+      cases hb : s.1.big with
+      | false => rfl
+      | true => have := (big_iff s.1).mp hb; omega
+    simp [restrForG, guessedHere, this]
+  · intro hg hs ha
+    have hb : s.1.big = true := (big_iff s.1).mpr hs
+    refine ⟨_, guessProtein_of_accepts ha, by simp [restrForG, guessedHere, hg, hb], ?_⟩
+    intro r'
+    simp [restrForG, guessedHere, hg, hb]
+
+/-- the flag switched off is `parse_restrictions(r)` -/
+theorem routing_guess_off (sys : List (Species P)) (r : Option (Dict RestrArg))
+    (d : Option (Dict DefArg)) (h : Option (Dict IgnArg)) :
+    parseRestrictionsG sys r false = parseRestrictions sys r ∧
+    managerAlignGuess sys r d h false = managerAlign sys r d h := by
+  have hp := parseRestrictionsG_off sys r false (fun s _ => by simp [guessedHere])
+  refine ⟨hp, ?_⟩
+  unfold managerAlignGuess managerAlign managerAlignPreparsed
+  rw [hp]
+
+/-- Species with at most 3 residues are routed exactly as without the flag:
+    (1) when no complete species has more than 3 residues the flag changes nothing at all — same
+        result, same errors, for every input;
+    (2) in general, whenever both calls return, every complete species of at most 3 residues has
+        the same entry in both dictionaries, and both have the same keys in the same order;
+    (3) a malformed value under such a species is refused with the flag as without it (`¬ SpeciesOkG`
+        at a species the flag does not apply to is `¬ RestrArg.Ok`). -/
+theorem routing_guess_overrides_only_big (sys : List (Species P)) (r : Option (Dict RestrArg))
+    (d : Option (Dict DefArg)) (h : Option (Dict IgnArg)) (g : Bool) :
+    ((∀ s ∈ complete sys, s.1.start.residues.length ≤ 3) →
+      parseRestrictionsG sys r g = parseRestrictions sys r ∧
+      managerAlignGuess sys r d h g = managerAlign sys r d h) ∧
+    ((sys.map (·.name)).Nodup → ∀ x y, parseRestrictionsG sys r g = .ok x → parseRestrictions sys r = .ok y →
+      x.map (·.1) = y.map (·.1) ∧
+      ∀ s ∈ complete sys, s.1.start.residues.length ≤ 3 → x.lookup s.1.name = y.lookup s.1.name) ∧
+    (∀ dr s, r = some dr → s ∈ complete sys → s.1.start.residues.length ≤ 3 →
+      ((∀ v, dr.lookup s.1.name = some v → v.Ok s.1.start s.2) ↔ SpeciesOkG r g s)) := by
+  refine ⟨?_, ?_, ?_⟩
+  · intro hs
+    have hoff : ∀ s ∈ complete sys, guessedHere g s = false := by
+      intro s hs'
+      have := hs s hs'
+      cases hb : s.1.big with
+      | false => simp [guessedHere, hb]
+      | true => have := (big_iff s.1).mp hb; omega
+    have hp := parseRestrictionsG_off sys r g hoff
+    refine ⟨hp, ?_⟩
+    unfold managerAlignGuess managerAlign managerAlignPreparsed
+    rw [hp]
+  · intro hnd x y hx hy
+    have hx' := parseRestrictionsG_ok sys r g (RestrDictOkG_of_parse hx)
+    have hy' := parseRestrictions_ok sys r (RestrDictOk_of_parse hy)
+    rw [hx] at hx'; rw [hy] at hy'
+    cases hx'; cases hy'
+    have hnd' : ((complete sys).map (·.1.name)).Nodup :=
+      List.Nodup.sublist (completeNames_sublist sys) hnd
+    refine ⟨by simp [parsedRestrG, parsedRestr, List.map_map, Function.comp_def], ?_⟩
+    intro s hs hlen
+    have e1 : (parsedRestrG r g (complete sys)).lookup s.1.name = some (restrForG r g s) :=
+      lookup_map_name _ _ hnd' s hs
+    have e2 : (parsedRestr r (complete sys)).lookup s.1.name = some (restrFor r s.1.name) :=
+      lookup_map_name _ (fun t => restrFor r t.1.name) hnd' s hs
+    rw [e1, e2, (routing_guess_values r g s).2.1 hlen]
+  · intro dr s hr _ hlen
+    subst hr
+    have hb : s.1.big = false := by
+      cases hb : s.1.big with
+      | false => rfl
+      | true => have := (big_iff s.1).mp hb; omega
+    simp [SpeciesOkG, guessedHere, hb]
+
+/-- the value stored under a species the flag applies to is never read: two dictionaries (keys
+    known) that agree on every species the flag does NOT apply to are parsed to the same result —
+    same dictionary or same error -/
+theorem routing_guess_ignores_user_value (sys : List (Species P)) (dr dr' : Dict RestrArg) (g : Bool)
+    (hk : KeysKnown sys (some dr)) (hk' : KeysKnown sys (some dr'))
+    (hagree : ∀ s ∈ complete sys, (g = false ∨ s.1.start.residues.length ≤ 3) →
+      dr.lookup s.1.name = dr'.lookup s.1.name) :
+    parseRestrictionsG sys (some dr) g = parseRestrictionsG sys (some dr') g := by
+  simp only [parseRestrictionsG, (checkNamesKnown_ok_iff _ _).mpr hk,
+    (checkNamesKnown_ok_iff _ _).mpr hk']
+  apply parseRestrLoopG_congr
+  intro s hs hoff
+  apply hagree s hs
+  cases g with
+  | false => exact Or.inl rfl
+  | true =>
+    right
+    have hb : s.1.big = false := by simpa [guessedHere] using hoff
+    have : ¬ s.1.start.residues.length > 3 := fun hgt => by
+      have := (big_iff s.1).mpr hgt
+      rw [hb] at this; cases this
+    omega
+
+/-- Refusal.  With the flag on, a species of more than 3 residues whose two molecules do not have the
+    same number of residues makes `parse_restrictions` raise — so no alignment is ever started — and
+    the error is the guesser's `IOError` raised AT THAT SPECIES of the loop: it is what the caller
+    sees whenever the key check passed and every complete species before it in dictionary order
+    is fine (`SpeciesOkG`); an unknown key (`KeyError`) or an earlier species' error comes first,
+    exactly as in the code. -/
+theorem routing_guess_refusal (sys : List (Species P)) (r : Option (Dict RestrArg))
+    (d : Option (Dict DefArg)) (h : Option (Dict IgnArg))
+    (pre : List (Species P × Mol P)) (s : Species P × Mol P) (post : List (Species P × Mol P))
+    (hsplit : complete sys = pre ++ s :: post)
+    (hbig : s.1.start.residues.length > 3)
+    (hmis : s.1.start.residues.length ≠ s.2.residues.length) :
+    (∃ err, parseRestrictionsG sys r true = .error err ∧
+      managerAlignGuess sys r d h true = ⟨[], some err⟩) ∧
+    (KeysKnown sys r → (∀ x ∈ pre, SpeciesOkG r true x) →
+      parseRestrictionsG sys r true = .error .ioError ∧
+      managerAlignGuess sys r d h true = ⟨[], some .ioError⟩) := by
+  have hb : guessedHere true s = true := by simp [guessedHere, (big_iff s.1).mpr hbig]
+  have hbad : ¬ SpeciesOkG r true s := by
+    intro hok
+    simp only [SpeciesOkG, hb, ↓reduceIte] at hok
+    exact hmis hok.1
+  have hnot : ¬ RestrDictOkG sys r true := by
+    intro hok
+    exact hbad (hok.2 s (by rw [hsplit]; simp))
+  constructor
+  · obtain ⟨err, he⟩ := parseRestrictionsG_err sys r true hnot
+    exact ⟨err, he, by simp [managerAlignGuess, he]⟩
+  · intro hk hpre
+    have hp : parseRestrictionsG sys r true = .error .ioError := by
+      cases r with
+      | none =>
+        simp only [parseRestrictionsG, hsplit]
+        exact parseRestrNoneLoopG_first_bad true pre s post hpre hbad
+      | some dr =>
+        simp only [parseRestrictionsG, (checkNamesKnown_ok_iff _ _).mpr hk, hsplit]
+        obtain ⟨err, he, hio⟩ := parseRestrLoopG_first_bad dr true pre s post hpre hbad
+        rw [he, hio hb]
+    exact ⟨hp, by simp [managerAlignGuess, hp]⟩
+
+/-- nothing but the accepted inputs gets through: anything outside `RestrDictOkG` (unknown key,
+    malformed value under a species the flag does not apply to, refused guess) or a malformed
+    deformation / hydrogen dictionary ends the composed call with an error before the first alignment;
+    and what `parse_restrictions` accepts is exactly `RestrDictOkG` -/
+theorem routing_guess_rejects_first (sys : List (Species P)) (r : Option (Dict RestrArg))
+    (d : Option (Dict DefArg)) (h : Option (Dict IgnArg)) (g : Bool) :
+    (¬ (RestrDictOkG sys r g ∧ DefDictOk sys d ∧ IgnDictOk sys h) →
+      ∃ err, managerAlignGuess sys r d h g = ⟨[], some err⟩) ∧
+    ((∃ x, parseRestrictionsG sys r g = .ok x) ↔ RestrDictOkG sys r g) :=
+  ⟨managerAlignGuess_rejects sys r d h g,
+   ⟨fun ⟨_, hx⟩ => RestrDictOkG_of_parse hx, fun hok => ⟨_, parseRestrictionsG_ok sys r g hok⟩⟩⟩
+
+/-! ### the `Alignment.start` / `Alignment.end` setters, the unset check, `Manager.add_end_molecule` -/
+
+/-- `Molecule.__eq__` is equality of (name, per-atom (resname, name, index, top_resid)) -/
+theorem molecule_eq_spec (a b : MolId) : molEq a b = true ↔ a = b := molEq_iff a b
+
+/-- One assignment.  `None` clears the attribute; a non-`Molecule` is a `TypeError`; while either
+    molecule is unset every molecule is accepted; with both set a molecule is accepted iff it equals
+    (`Molecule.__eq__`) the molecule CURRENTLY stored in the attribute being assigned, and is a
+    `ValueError` otherwise; the other attribute is never touched. -/
+theorem setter_spec {M : Type} (ident : M → MolId) (st : AliState M) :
+    setStart ident st .none = .ok ⟨none, st.end_⟩ ∧ setEnd ident st .none = .ok ⟨st.start, none⟩ ∧
+    setStart ident st .nonMolecule = .error .typeError ∧
+    setEnd ident st .nonMolecule = .error .typeError ∧
+    (∀ m, (st.start = none ∨ st.end_ = none) →
+      setStart ident st (.mol m) = .ok ⟨some m, st.end_⟩ ∧
+      setEnd ident st (.mol m) = .ok ⟨st.start, some m⟩) ∧
+    (∀ m cs ce, st.start = some cs → st.end_ = some ce →
+      setStart ident st (.mol m) =
+        (if ident m = ident cs then .ok ⟨some m, some ce⟩ else .error .valueError) ∧
+      setEnd ident st (.mol m) =
+        (if ident m = ident ce then .ok ⟨some cs, some m⟩ else .error .valueError)) := by
+  refine ⟨rfl, rfl, rfl, rfl, ?_, ?_⟩
+  · intro m hu
+    cases hs : st.start <;> cases he : st.end_ <;> simp_all [setStart, setEnd]
+  · intro m cs ce hs he
+    constructor
+    · by_cases heq : ident m = ident cs
+      · simp [setStart, hs, he, heq, (molEq_iff _ _).mpr rfl]
+      · have : molEq (ident m) (ident cs) = false := by
+          cases hx : molEq (ident m) (ident cs) with
+          | false => rfl
+          | true => exact absurd ((molEq_iff _ _).mp hx) heq
+        simp [setStart, hs, he, heq, this]
+    · by_cases heq : ident m = ident ce
+      · simp [setEnd, hs, he, heq, (molEq_iff _ _).mpr rfl]
+      · have : molEq (ident m) (ident ce) = false := by
+          cases hx : molEq (ident m) (ident ce) with
+          | false => rfl
+          | true => exact absurd ((molEq_iff _ _).mp hx) heq
+        simp [setEnd, hs, he, heq, this]
+
+/-- `Alignment(start, end)` never compares the two molecules: any two molecules are accepted -/
+theorem constructor_accepts {M : Type} (ident : M → MolId) (s e : M) :
+    newAlignment ident (.mol s) (.mol e) = .ok ⟨some s, some e⟩ := rfl
+
+/-- Invariant over ALL histories of assignments (each in its own `try`, none of them `None`): once
+    both molecules are set, their identities never change again — every later assignment either
+    stores an equal molecule or is refused and leaves the object as it was; and at every such
+    state an assigned molecule is accepted exactly when it equals the stored one. -/
+theorem setter_history_invariant {M : Type} (ident : M → MolId) (st : AliState M) (ids ide : MolId)
+    (hl : Locked ident st ids ide) :
+    (∀ ops : List (SetOp M), (∀ op ∈ ops, op.clears = false) →
+      Locked ident (runOps ident st ops).1 ids ide) ∧
+    (∀ m, (setStart ident st (.mol m)).isOk = decide (ident m = ids) ∧
+          (setEnd ident st (.mol m)).isOk = decide (ident m = ide)) :=
+  ⟨fun ops hn => runOps_locked ident ops st ids ide hl hn,
+   fun m => ⟨(setStart_locked ident st ids ide hl (.mol m) rfl).2 m rfl,
+             (setEnd_locked ident st ids ide hl (.mol m) rfl).2 m rfl⟩⟩
+
+/-- `Alignment.align_molecules` with start or end unset is a `ValueError` whatever the arguments;
+    with both set it is `alignPrep` of the two stored molecules (all theorems of sentence 1 apply) -/
+theorem align_unset_refused (st : AliState (Mol P)) (restr : Option (List Pair))
+    (deform : Option (List Int)) (ignoreH auto : Bool) :
+    ((st.start = none ∨ st.end_ = none) →
+      alignMolecules st restr deform ignoreH auto = .error .valueError) ∧
+    (∀ s e, st.start = some s → st.end_ = some e →
+      alignMolecules st restr deform ignoreH auto = alignPrep s e restr deform ignoreH auto) := by
+  constructor
+  · intro hu
+    cases hs : st.start <;> cases he : st.end_ <;> simp_all [alignMolecules]
+  · intro s e hs he
+    simp [alignMolecules, hs, he]
+
+/-- `Manager.add_end_molecule`: `TypeError` for `None` / a non-`Molecule`; `KeyError` when no species
+    has the molecule's name; otherwise the outcome of the `end` setter of the species with THAT name:
+    its error, or the new state stored under that name with every other species and the key order
+    untouched. -/
+theorem add_end_molecule_spec {M : Type} (ident : M → MolId) (c : Corr M) :
+    addEndMolecule ident c .none = .error .typeError ∧
+    addEndMolecule ident c .nonMolecule = .error .typeError ∧
+    (∀ m, c.lookup (ident m).name = none → addEndMolecule ident c (.mol m) = .error .keyError) ∧
+    (∀ m st, c.lookup (ident m).name = some st →
+      (∀ e, setEnd ident st (.mol m) = .error e → addEndMolecule ident c (.mol m) = .error e) ∧
+      (∀ st', setEnd ident st (.mol m) = .ok st' →
+        ∃ c', addEndMolecule ident c (.mol m) = .ok c' ∧ c'.map (·.1) = c.map (·.1) ∧
+          c'.lookup (ident m).name = some st' ∧
+          ∀ n, n ≠ (ident m).name → c'.lookup n = c.lookup n)) := by
+  refine ⟨rfl, rfl, ?_, ?_⟩
+  · intro m hl
+    simp [addEndMolecule, hl]
+  · intro m st hl
+    constructor
+    · intro e he
+      simp [addEndMolecule, hl, he]
+    · intro st' he
+      refine ⟨c.set (ident m).name st', by simp [addEndMolecule, hl, he], Corr.set_keys _ _ _,
+        Corr.set_lookup_eq _ _ _ _ hl, fun n hn => Corr.set_lookup_ne _ _ _ _ hn⟩
+
+/-- `Manager.add_end_molecules(*molecules)`: when every addition succeeds all of them are applied, in
+    order; otherwise the call ends with the error of the FIRST refused molecule, the molecules before it
+    stay added and none after it is looked at -/
+theorem add_end_molecules_spec {M : Type} (ident : M → MolId) (c c' : Corr M) :
+    (∀ l, addAll ident c l = some c' → addEndMolecules ident c l = (c', none)) ∧
+    (∀ pre a post e, addAll ident c pre = some c' → addEndMolecule ident c' a = .error e →
+      addEndMolecules ident c (pre ++ a :: post) = (c', some e)) :=
+  ⟨fun l h => addEndMolecules_all ident c c' l h,
+   fun pre a post e hp ha => addEndMolecules_stops ident c c' pre a post e hp ha⟩
+
 /-! ### non-vacuity: concrete, non-trivial objects meeting the hypotheses (evaluated by the kernel) -/
 
 section Examples
@@ -581,6 +877,113 @@ example : managerAlign exSys none none (some [(['C'], .bool true)]) = ⟨[], som
 example : managerAlign exSys (some [(['A'], .list [.pair (.int 0) (.int 0), .nonPair])]) none none =
     ⟨[], some .valueError⟩ := rfl
 example : managerAlign exSys none none (some [(['A'], .other)]) = ⟨[], some .valueError⟩ := rfl
+
+/-! #### `guess_proteins` -/
+
+/-- a four-residue species `P` (6 atoms, one hydrogen; end: 5 beads, `AL` ⊂ `ALA`) next to the
+    one-residue species `A` -/
+private def pepS : Mol Nat :=
+  ⟨[⟨['A','L','A'], atomsOf [['N'], ['H','1']] 0⟩, ⟨['G','L','Y'], atomsOf [['C','A']] 2⟩,
+    ⟨['S','E','R'], atomsOf [['N'], ['O','G']] 3⟩, ⟨['L','Y','S'], atomsOf [['N','Z']] 5⟩], true, true⟩
+private def pepE : Mol Nat :=
+  ⟨[⟨['A','L'], atomsOf [['B','1']] 0⟩, ⟨['G','L','Y'], atomsOf [['B','1']] 1⟩,
+    ⟨['S','E','R'], atomsOf [['B','1']] 2⟩, ⟨['L','Y','S'], atomsOf [['B','1'], ['B','2']] 3⟩], true, true⟩
+/-- an end molecule with only three residues -/
+private def pepE3 : Mol Nat :=
+  ⟨[⟨['A','L','A'], atomsOf [['B','1']] 0⟩, ⟨['G','L','Y'], atomsOf [['B','1']] 1⟩,
+    ⟨['S','E','R'], atomsOf [['B','1'], ['B','2']] 2⟩], true, true⟩
+private def sysG : List (Species Nat) := [⟨['A'], spA_start, some spA_end⟩, ⟨['P'], pepS, some pepE⟩]
+private def sysBad : List (Species Nat) := [⟨['A'], spA_start, some spA_end⟩, ⟨['P'], pepS, some pepE3⟩]
+private def rG : Dict RestrArg :=
+  [(['P'], .list [.pair (.int 5) (.int 0)]), (['A'], .list [.pair (.int 3) (.int 1)])]
+/-- the same with a MALFORMED value under `P` (index out of range, a non-pair) -/
+private def rGbad : Dict RestrArg :=
+  [(['P'], .list [.pair (.int 99) (.int 0), .nonPair]), (['A'], .list [.pair (.int 3) (.int 1)])]
+
+/-- the hypotheses of `routing_guess_exact` (flag on, a user value under the big species) -/
+example : (sysG.map (·.name)).Nodup ∧ RestrDictOkG sysG (some rG) true ∧ RestrDictOkG sysG (some rGbad) true ∧
+    pepS.residues.length > 3 :=
+  ⟨by decide, RestrDictOkG_of_parse (x := _) rfl, RestrDictOkG_of_parse (x := _) rfl, by decide⟩
+/-- … and what it says there: `A` (one residue) keeps the user's pair, `P` gets the guessed list, the
+    user's `(5, 0)` is gone; the malformed value under `P` is not even looked at; without the flag the
+    user's pair is used; `restrictions=None` with the flag guesses for `P` only -/
+example : parseRestrictionsG sysG (some rG) true =
+    .ok [(['A'], some [(3, 1)]), (['P'], some [(0, 0), (1, 0), (2, 1), (3, 2), (4, 2), (5, 3), (5, 4)])] := rfl
+example : parseRestrictionsG sysG (some rGbad) true = parseRestrictionsG sysG (some rG) true := rfl
+example : parseRestrictionsG sysG (some rG) false = .ok [(['A'], some [(3, 1)]), (['P'], some [(5, 0)])] := rfl
+example : parseRestrictionsG sysG (some rGbad) false = .error .valueError := rfl
+example : parseRestrictionsG sysG none true =
+    .ok [(['A'], none), (['P'], some [(0, 0), (1, 0), (2, 1), (3, 2), (4, 2), (5, 3), (5, 4)])] := rfl
+/-- the composed call: the guessed list reaches `P`'s optimiser through the hydrogen filter (atom 1, `H1`,
+    dropped: `(1, 0)` disappears and the fixed-side indices are re-ranked) -/
+example : managerAlignGuess sysG (some rG) none none true =
+    ⟨[(['A'], .call false ⟨[0, 2, 3], [0, 1], [(2, 1)], [0, 1, 2], 10000⟩),
+      (['P'], .call false ⟨[0, 2, 3, 4, 5], [0, 1, 2, 3, 4],
+        [(0, 0), (1, 1), (2, 2), (3, 2), (4, 3), (4, 4)], [0, 1, 2], 25000⟩)], none⟩ := rfl
+example : managerAlignGuess sysG (some rG) none none false =
+    ⟨[(['A'], .call false ⟨[0, 2, 3], [0, 1], [(2, 1)], [0, 1, 2], 10000⟩),
+      (['P'], .call false ⟨[0, 2, 3, 4, 5], [0, 1, 2, 3, 4], [(4, 0)], [0, 1, 2], 25000⟩)], none⟩ := rfl
+/-- `routing_guess_refusal`: 4 residues against 3 — `IOError`, nothing aligned (`A` comes first in the
+    dictionary and is fine); its hypotheses -/
+example : complete sysBad = [(⟨['A'], spA_start, some spA_end⟩, spA_end)] ++ (⟨['P'], pepS, some pepE3⟩, pepE3) :: [] ∧
+    pepS.residues.length > 3 ∧ pepS.residues.length ≠ pepE3.residues.length ∧ KeysKnown sysBad (some rG) ∧
+    SpeciesOkG (some rG) true ((⟨['A'], spA_start, some spA_end⟩ : Species Nat), spA_end) := by
+  refine ⟨rfl, by decide, by decide, ?_, ?_⟩
+  · intro kv hkv
+    simp only [rG, List.mem_cons, List.not_mem_nil, or_false] at hkv
+    rcases hkv with rfl | rfl <;> decide
+  · have hb : guessedHere true ((⟨['A'], spA_start, some spA_end⟩ : Species Nat), spA_end) = false := rfl
+    simp only [SpeciesOkG, hb, Bool.false_eq_true, ↓reduceIte]
+    intro v hv
+    have : v = .list [.pair (.int 3) (.int 1)] := by
+      have : List.lookup ['A'] rG = some (.list [.pair (.int 3) (.int 1)]) := rfl
+      rw [this] at hv; cases hv; rfl
+    subst this
+    intro en hen
+    simp only [List.mem_cons, List.not_mem_nil, or_false] at hen
+    subst hen
+    exact ⟨⟨by decide, by decide⟩, ⟨by decide, by decide⟩⟩
+example : managerAlignGuess sysBad (some rG) none none true = ⟨[], some .ioError⟩ := rfl
+/-- the same system without the flag is aligned (P with the user's pair) -/
+example : (managerAlignGuess sysBad (some rG) none none false).err = none := rfl
+/-- an unknown key comes first: `KeyError`, not the guesser's `IOError` -/
+example : parseRestrictionsG sysBad (some ((['Z'], .falsy) :: rG)) true = .error .keyError := rfl
+
+/-! #### setters, unset check, `add_end_molecule` -/
+
+private def idA : MolId := ⟨['M'], [⟨['R'], ['C','1'], 0, 1⟩, ⟨['R'], ['C','2'], 1, 1⟩]⟩
+/-- same name and length, second atom differs in `top_resid` only -/
+private def idA' : MolId := ⟨['M'], [⟨['R'], ['C','1'], 0, 1⟩, ⟨['R'], ['C','2'], 1, 2⟩]⟩
+private def idB : MolId := ⟨['M'], [⟨['R'], ['B'], 0, 1⟩]⟩
+private def idN : MolId := ⟨['N'], [⟨['R'], ['B'], 0, 1⟩]⟩
+
+example : molEq idA idA = true ∧ molEq idA idA' = false ∧ molEq idA idB = false ∧ molEq idB idN = false := by
+  decide
+/-- a history on one object: construct with (A, B) — not compared —, re-assign start with an equal
+    molecule (accepted), with a different one (`ValueError`), a non-molecule (`TypeError`), end with `A`
+    (`ValueError`: compared with the stored END); the object still holds (A, B) = `Locked … idA idB` -/
+example : runOps id ⟨some idA, some idB⟩
+      [.start (.mol idA), .start (.mol idA'), .start .nonMolecule, .end_ (.mol idA), .end_ (.mol idB)] =
+    (⟨some idA, some idB⟩, [none, some .valueError, some .typeError, some .valueError, none]) := rfl
+example : Locked id (⟨some idA, some idB⟩ : AliState MolId) idA idB := ⟨rfl, rfl⟩
+/-- after clearing the end (`None`) anything goes for the start, and `align_molecules` is a `ValueError` -/
+example : runOps id ⟨some idA, some idB⟩ [.end_ .none, .start (.mol idN)] =
+    (⟨some idN, none⟩, [none, none]) := rfl
+example : alignMolecules ⟨some small, none⟩ (some [(0, 0)]) none true = .error .valueError ∧
+    alignMolecules ⟨none, some big⟩ none none false = .error .valueError ∧
+    alignMolecules ⟨some small, some big⟩ (some [(0, 2)]) none true =
+      alignPrep small big (some [(0, 2)]) none true := ⟨rfl, rfl, rfl⟩
+/-- `add_end_molecule`: routed by the molecule's name; unknown name; non-molecule -/
+example : addEndMolecule id [(['N'], ⟨some idN, none⟩), (['M'], ⟨some idA, none⟩)] (.mol idB) =
+    .ok [(['N'], ⟨some idN, none⟩), (['M'], ⟨some idA, some idB⟩)] := rfl
+example : addEndMolecule id [(['N'], ⟨some idN, none⟩)] (.mol idB) = .error .keyError ∧
+    addEndMolecule id [(['N'], ⟨some idN, none⟩)] .nonMolecule = .error .typeError ∧
+    addEndMolecule id [(['M'], ⟨some idA, some idB⟩)] (.mol idA) = .error .valueError := ⟨rfl, rfl, rfl⟩
+
+/-- `add_end_molecules`: the second molecule has an unknown name — the first stays added, the third is never looked at -/
+example : addEndMolecules id [(['N'], ⟨some idN, none⟩), (['M'], ⟨some idA, none⟩)]
+      [.mol idB, .mol ⟨['Q'], []⟩, .mol idN] =
+    ([(['N'], ⟨some idN, none⟩), (['M'], ⟨some idA, some idB⟩)], some .keyError) := rfl
 
 end Examples
 
